@@ -560,6 +560,13 @@ public:
       pre = strengthen(head, pre);
     }
 
+    // If the analysis starts at the head of this cycle then the
+    // initial value of the head acts as the post of an extra
+    // predecessor outside the cycle: it must be part of every
+    // recomputation of the head's precondition.
+    const bool head_is_entry = entry_in_this_cycle && (head == m_entry);
+    AbstractValue entry_val = (head_is_entry ? pre : make_bottom());
+
     for (unsigned int iteration = 1;; ++iteration) {
       // keep track of how many times the cycle is visited by the fixpoint
       cycle.increment_fixpo_visits();
@@ -573,6 +580,9 @@ public:
       }
       crab::CrabStats::resume("Fixpo.join_predecessors");
       AbstractValue new_pre = std::move(make_bottom());
+      if (head_is_entry) {
+        new_pre |= entry_val;
+      }
       for (basic_block_label_t prev : prev_nodes) {
         new_pre |= m_iterator->get_post(prev);
       }
@@ -607,6 +617,9 @@ public:
       }
       crab::CrabStats::resume("Fixpo.join_predecessors");
       AbstractValue new_pre = std::move(make_bottom());
+      if (head_is_entry) {
+        new_pre |= entry_val;
+      }
       for (basic_block_label_t prev : prev_nodes) {
         new_pre |= m_iterator->get_post(prev);
       }
